@@ -1,6 +1,15 @@
 (* Pinned statements of C06: re-checked on every run. *)
-From SF Require Import Base.Prelude Gen.Generated Unsized.Types Unsized.Parse Unsized.Machine Unsized.Ops Unsized.Proofs.EncodeParse Unsized.Proofs.Mem Unsized.Proofs.Notify Unsized.Proofs.Flat Properties.C06.
+From SF Require Import Base.Prelude Gen.Generated Unsized.Types Unsized.Parse Unsized.Machine Unsized.Ops Unsized.Proofs.EncodeParse Unsized.Proofs.Mem Unsized.Proofs.Notify Unsized.Proofs.Flat Unsized.Proofs.Layout Unsized.Proofs.Path Unsized.Proofs.Resize Unsized.Proofs.GenOps Unsized.Proofs.History Properties.C06.
 
+Check (C06_general_failure_is_clean :
+  forall ovf t v s top pi0 o code,
+    RepF pi0 t v s top -> oerrG (m_cap s) (m_refuse s) t v o = Some code ->
+    exists top1, menter ovf t s top [] (focus_of o) = Ok top1 /\ mopG t s top1 o = Err code /\
+                 RepF (focus_of o) t v s top1).
+Check (C06_general_continue_after_failures :
+  forall ovf t h v s top pi0 v' l,
+    RepF pi0 t v s top -> m_refuse s <> 1 -> orunE (m_cap s) (m_refuse s) t v h = Some (v', l) ->
+    exists s' top' pi', mrunE ovf t s top h = Ok (s', top', l) /\ RepF pi' t v' s' top').
 Check (C06_flat_growth_refused_is_clean :
   forall tsA tsB vsA vsB c lw items, length tsA = length vsA -> forall s top idx new,
     Rep (tsA ++ TList c lw :: tsB) (vsA ++ VList items :: vsB) s top ->
@@ -30,6 +39,8 @@ Check (C06_flat_continue_after_failure :
 Check (C06_realloc_refusal_precedes_writes :
   forall s n, m_len s < n -> m_refuse s = 1 -> realloc s n = Err E_REALLOC).
 
+Print Assumptions C06_general_failure_is_clean.
+Print Assumptions C06_general_continue_after_failures.
 Print Assumptions C06_flat_growth_refused_is_clean.
 Print Assumptions C06_flat_index_error_is_clean.
 Print Assumptions C06_flat_prefix_overflow_is_clean.
